@@ -5,7 +5,7 @@ predicates, so that facts added by one action are deleted or tested by another."
 import random
 
 import gen_core
-from gen_core import S, L, Gen, typed
+from gen_core import S, L, N, Gen, typed
 
 PARAM_SETS = [
     [["?x", "t1"], ["?y", "object"]],
@@ -17,8 +17,16 @@ PARAM_SETS = [
 ]
 
 
-def gen_domain(rng, n_actions=4, with_forall=True, with_numeric=True):
+def gen_domain(rng, n_actions=4, with_forall=True, with_numeric=True, noise=False):
     acts = []
+    if noise:
+        # fluent values that are not short decimals (float noise, thirds): no comparison reads them, so the
+        # exact arithmetic of the specification and the library's doubles never disagree on a truth value
+        with_numeric = False
+        acts.append(("tick", [], L(), L(S("and"), L(S("increase"), L(S("g")), {"t": "n", "v": [1, 10], "txt": "0.1"}))))
+        acts.append(("third", [["?x", "t1"]], L(), L(S("and"), L(S("assign"), L(S("f"), S("?x")), L(S("/"), L(S("g")), N(3))))))
+        acts.append(("tiny", [["?x", "t1"]], L(), L(S("and"), L(S("assign"), L(S("f"), S("?x")),
+                                                              L(S("*"), L(S("g")), {"t": "n", "v": [1, 100000], "txt": "0.00001"})))))
     for i in range(n_actions):
         params = rng.choice(PARAM_SETS)
         g = Gen(rng, params, with_forall=with_forall, with_numeric=with_numeric)
@@ -49,7 +57,7 @@ def gen_problem_tree(rng, objs, name="hp"):
 
 def gen_case(seed, cid, n_ops=14, **kw):
     rng = random.Random(seed * 7919 + cid)
-    dom, acts = gen_domain(rng, n_actions=rng.choice([3, 4, 5]), **kw)
+    dom, acts = gen_domain(rng, n_actions=rng.choice([3, 4, 5]) if not kw.get("noise") else 2, **kw)
     objs = list(gen_core.OBJS) if rng.random() < 0.7 else gen_core.OBJS[:3]
     return {"id": cid, "dom": dom, "prob": gen_problem_tree(rng, objs), "objs": objs,
             "acts": [[n, p] for n, p, _, _ in acts], "seed": rng.randrange(1 << 30), "n_ops": n_ops,
